@@ -20,6 +20,7 @@ CONSTANTS
   FactoryBuildsTwice = FALSE
   FirstInitErrorSwallowed = FALSE
   RepollAfterComplete = TRUE
+  AndThenFactorySequential = FALSE
 SPECIFICATION Spec
 INVARIANTS
   I_C12_ReadyIsConjunction I_C12_ReadyErrPropagates I_C12_PendingPolledAllWithCurrentWaker
